@@ -433,6 +433,12 @@ class _:
     def run(a, ins, vs, as_list): return a.setna(vs if as_list else vs[0])
     def coq(vs, as_list): return '(OSetna %s)' % cq_list([cq_cell(v) for v in vs])
 
+@op('setna_mixed')
+class _:
+    # a list of flag values together with a mask: a cell becomes NaN when ANY entry selects it (the same as the two calls in sequence)
+    def run(a, ins, vs, mask): return a.setna(list(vs) + [np.array(mask, dtype=bool).reshape(a.shape)])
+    def coq(vs, mask): return '(OSetna %s); (OSetnaMask %s)' % (cq_list([cq_cell(v) for v in vs]), cq_list(['true' if b else 'false' for b in mask]))
+
 @op('setna_mask')
 class _:
     def run(a, ins, mask): return a.setna(np.array(mask, dtype=bool).reshape(a.shape))
